@@ -50,7 +50,7 @@ def run(ctx):
     ctx.rule("S8", "accepted <=> loaded: under sink.valid the sink.ready formula and the load enable coincide",
              min_sites=5)
     ctx.rule("S11", "occupancy registers stay inside their declared range: every +d/-d update of a Signal(max=M) register is "
-                    "guarded by thresholds that keep it in 0..M-1 (linear forms over the positive constructor parameters)", min_sites=7)
+                    "guarded by thresholds that keep it in 0..M-1 (linear forms over the positive constructor parameters)", min_sites=31)
     ctx.rule("S10", "selection-based routing and compositions: mux/demux arm i connects endpoint i under sel == i; Gate connects "
                     "only when enabled; SyncFIFO depth 0/1/>=2 arms; Pipeline chains consecutive modules; Buffer order sink, "
                     "pipe_valid, pipe_ready, source; Cast maps all bits; BufferizeEndpoints directions", min_sites=20)
@@ -224,6 +224,10 @@ def run(ctx):
     # ---- S11 occupancy range
     from ..rules_stream import s_range
     s_range(ctx, "S11", fx_of(ctx, STREAM, "Gearbox"), "Gearbox", "level")
+    # position counters: wrap explicitly at their last value, never rely on overflow (ratio need not be a power of two)
+    for cls, reg in (("_UpConverter", "demux"), ("_DownConverter", "mux"), ("Pack", "demux"), ("Unpack", "mux"),
+                     ("Gearbox", "i_count"), ("Gearbox", "o_count")):
+        s_range(ctx, "S11", fx_of(ctx, STREAM, cls), cls, reg)
 
 
 def _s10(ctx):
